@@ -57,3 +57,30 @@ def member_macros(fields, undef=False):
     if undef:
         return "".join("#undef %s\n" % f for f in fields)
     return "".join("#define %s (self->%s)\n" % (f, f) for f in fields)
+
+
+def lower_refs(sig, types=None):
+    """`T &x` / `const T &x` parameters -> `T *x_p` and `#define x (*x_p)`.
+    types: optional map C++ type -> C type (e.g. {'Platform': 'struct Platform'}).
+    Returns (new signature, defines text, undefs text)."""
+    types = types or {}
+    defs, undefs = [], []
+
+    def rep(mo):
+        const, ty, name = mo.group(1) or "", mo.group(2), mo.group(3)
+        cty = types.get(ty, ty)
+        defs.append("#define %s (*%s_p)\n" % (name, name))
+        undefs.append("#undef %s\n" % name)
+        return "%s%s *%s_p" % (const, cty, name)
+    new = re.sub(r'(const\s+)?([A-Za-z_][\w ]*?)\s*&\s*([A-Za-z_]\w*)(?=\s*[,)])', rep, sig)
+    return new, "".join(defs), "".join(undefs)
+
+
+def valuetype_struct():
+    """struct ValueType with the members kernels read + isIntegral() extracted from lib/symboldatabase.h."""
+    loc = extract.locate_function("lib/symboldatabase.h", r'^\s*bool\s+isIntegral\s*\(\s*\)\s*const')
+    text, _ = extract.apply_rules(loc.text, extract.GENERIC + VT_RULES, "ValueType::isIntegral")
+    sig, body = extract.body_of(text)
+    st = "struct ValueType { enum Sign sign; enum VType type; int bits; int pointer; int constness; };\n"
+    fn = "#define type (self->type)\n%s %s\n#undef type\n" % (add_self(sig, "const struct ValueType *self", "ValueType_isIntegral"), body)
+    return st + fn, loc
